@@ -23,6 +23,7 @@ OP_NAMES = ['OpA', 'OpAB', 'OpA_b', 'OpB']
 
 
 IN_ALIASES = ['in%d', 'in%d', 'input: i%d', 'get.%d', 'result%d', 'in %d', 'fetch_result_%d', 'output: as input %d']
+SHORT_ALIASES = ['input', 'in', 'i', 'put', 'args', 'kwargs']
 OUT_ALIASES = ['out%d', 'out%d', 'result_%d', 'send results %d', 'out%d.result', 'output: o%d', 'x%d result', 'publish_results%d']
 
 
@@ -155,8 +156,10 @@ def gen_service(tape, run, max_inputs=4, max_outputs=3, max_steps=12, threads=Fa
     ninputs = 1 + tape.draw(max_inputs)
     noutputs = tape.draw(max_outputs + 1)
     for i in range(ninputs):
-        spec.inputs.append(gen_input(tape, run, i, value_depth, rich_missing,
-                                     alias=(tape.choice(IN_ALIASES) % i) if odd_aliases else None))
+        alias = (tape.choice(IN_ALIASES) % i) if odd_aliases else None
+        if odd_aliases and tape.draw(4) == 3:
+            alias = SHORT_ALIASES[i % len(SHORT_ALIASES)]      # aliases that are substrings of the key syntax itself
+        spec.inputs.append(gen_input(tape, run, i, value_depth, rich_missing, alias=alias))
     for j in range(noutputs):
         o = OutputSpec(j, alias=(tape.choice(OUT_ALIASES) % j) if odd_aliases else None)
         o.kind = 'instance' if tape.draw(3) < 2 else 'static'
@@ -496,7 +499,7 @@ class Service(object):
             ov = self.overrides.get(ispec.alias, {})
             alias = ov.get('alias', ispec.alias + '.{name}' if ispec.resolver else ispec.alias)
             kw = dict(
-                alias_params_resolver=(lambda s, *a, **k: {'name': s.name}) if ispec.resolver else None,
+                alias_params_resolver=self._resolver(ispec) if ispec.resolver else None,
                 data_handler=RevInputHandler(env) if ispec.handler else None,
                 capture_args=ispec.capture,
                 run_intercepted_when_missing=ov.get('run_when_missing', ispec.run_when_missing),
@@ -542,6 +545,17 @@ class Service(object):
             self_.name = name
         ns['__init__'] = __init__
         return type('Dep', (object,), ns)
+
+    def _resolver(self, ispec):
+        env = self.env
+
+        def resolver(s, *a, **k):
+            call = env.cur() or {}
+            if call.get('fault') == 'resolver_raises':
+                env.run.fault('resolver_raises')
+                raise LookupError('injected: alias parameters cannot be resolved')
+            return {'name': s.name}
+        return resolver
 
     def _fallback(self, ispec):
         if ispec.fallback is None:
@@ -1052,9 +1066,9 @@ def outputs_as_map(outputs):
 # ---------------------------------------------------------------------------------------------- fault placement
 STEP_FAULTS_IN = ['key_unbuildable', 'handler_raises', 'discard_in_body', 'interrupt_in_body', 'discard_before',
                   'raise_before', 'interrupt_before', 'force_before', 'force_in_body', 'copy_fails', 'unserializable_value',
-                  'fallback_raises']
+                  'fallback_raises', 'resolver_raises']
 STEP_FAULTS_OUT = ['handler_raises', 'discard_in_body', 'interrupt_in_body', 'discard_before', 'raise_before',
-                   'interrupt_before', 'force_before', 'force_in_body', 'unserializable_value']
+                   'interrupt_before', 'force_before', 'force_in_body', 'unserializable_value', 'unserializable_argument']
 
 
 def locate(steps, target):
@@ -1078,6 +1092,19 @@ def place_fault(spec, st, kind, run):
         return kind
     if kind == 'handler_raises':
         (spec.inputs if st[0] == 'in' else spec.outputs)[st[1]].handler = True
+    if kind == 'resolver_raises':
+        ispec = spec.inputs[st[1]]
+        if ispec.kind == 'static':
+            return None
+        ispec.resolver = True
+        for key in list(ispec.outcomes):
+            for dep in ('d0', 'd1'):
+                ispec.outcomes.setdefault((ispec.alias + '.' + dep, key[1]), ispec.outcomes[key])
+    if kind == 'unserializable_argument' and st[0] == 'out':
+        args, kwargs = st[2]
+        st[2] = ((D.Unserializable(5),) + tuple(args), kwargs)
+        run.fault('unserializable_argument')
+        return kind
     if kind == 'fallback_raises':
         # the key of the main alias is built, the fallback alias function then fails for this call
         ispec = spec.inputs[st[1]]
